@@ -21,7 +21,7 @@ ACTIONS = ["Init"] + ADV + VAL
 # (D_sigcache_ignores_time is declared per case by MC_Validator.tla only; the
 # machine has no clock-dependent cache to switch on)
 DEV_INVARIANT = {"D_nsec3_label_expect": "NoPanic", "D_ttl0_node_panic": "NoPanic",
-                 "D_extra_rrset_ignored": "Soundness"}
+                 "D_extra_rrset_ignored": "Soundness", "D_ent_node_as_signer": "HonestSecure"}
 
 META = {
     "category": "model_checking",
@@ -169,8 +169,14 @@ def run(ctx):
     # "time": TimePasses between runs (signatures with a few seconds of life
     # left: nodes built from them expire and are re-fetched; clock_gettime is
     # interposed in the executor) and Resalt (a second NSEC3 parameter set)
+    # "ent": the same with the leaf zone delegated below an empty non-terminal
+    # (the ENT's intermediate node outlives the zone's: D_ent_node_as_signer).
+    # "qseq": DIFFERENT questions in a row on one context (OtherQuestion: every
+    # ordered pair of query kinds, rewrites of either answer) - nodes,
+    # signature and NSEC3-hash caches filled for one name serve the next
     seqs = ["MC_Validator_seq", "MC_Validator_time"] + (
-        ["MC_Validator_seq_thorough", "MC_Validator_time_thorough"] if thorough else [])
+        ["MC_Validator_seq_thorough", "MC_Validator_time_thorough", "MC_Validator_ent_thorough",
+         "MC_Validator_qseq_thorough"] if thorough else ["MC_Validator_ent", "MC_Validator_qseq"])
     for cfgname in seqs:
         sq = ctx.tlc("MC_Validator", cfgname, workers=8, label="mc-" + cfgname[13:], cases_to=scases)
         ctx.require_ok(sq, cfgname)
